@@ -16,6 +16,7 @@ import (
 	"google.golang.org/protobuf/types/known/wrapperspb"
 
 	"github.com/tochemey/goakt/v4/internal/verif/vsched"
+	"github.com/tochemey/goakt/v4/internal/verif/vsync"
 )
 
 // C28 (transport part) — concurrent request/response exchanges over the REAL inet.Client connection
@@ -157,6 +158,7 @@ type c28Server struct {
 	byConn map[net.Conn]*c28Link
 	wg     sync.WaitGroup
 	log    []string
+	auto   bool // answer at once (fine-grained scenarios: no responder events)
 }
 
 func c28NewServer() *c28Server {
@@ -177,6 +179,9 @@ type c28ClosedByServer struct{}
 func (c28ClosedByServer) Error() string { return "server closes the connection" }
 
 func (s *c28Server) handle(ctx context.Context, conn Connection, req proto.Message) (proto.Message, error) {
+	if s.auto {
+		return wrapperspb.String("re:" + req.(*wrapperspb.StringValue).GetValue()), nil
+	}
 	s.mu.Lock()
 	l := s.byConn[conn.NetConn()]
 	pk := &c28Parked{link: l, id: req.(*wrapperspb.StringValue).GetValue(), cmd: make(chan c28Cmd)}
@@ -248,6 +253,7 @@ type c28Scenario struct {
 }
 
 func c28Run(t *testing.T, sc c28Scenario, c *vsched.Chooser) (out vsched.Outcome) {
+	vsync.ResetPools()
 	p := vsched.Bubble(t, func() {
 		srv := c28NewServer()
 		cl := NewClient("c28-no-dial", WithMaxIdleConns(sc.conns))
@@ -509,6 +515,134 @@ func c28Run(t *testing.T, sc c28Scenario, c *vsched.Chooser) (out vsched.Outcome
 	return out
 }
 
+// c28PointConn adds explicit scheduling points before every Read and Write of a client-side
+// connection (outside the bufferedConn, whose mutex would otherwise be held at the point), so that two callers that (wrongly) hold the same connection are interleaved between
+// their writes and reads.
+type c28PointConn struct{ net.Conn }
+
+func (c c28PointConn) Read(p []byte) (int, error) {
+	vsched.Point("conn-read")
+	return c.Conn.Read(p)
+}
+
+func (c c28PointConn) Write(p []byte) (int, error) {
+	vsched.Point("conn-write")
+	return c.Conn.Write(p)
+}
+
+// c28Fine — thread interleavings of the pool operations (Get/Put/Discard under Client.mu, the closed
+// flag) of concurrent SendProto calls, under the controlled scheduler: points at the shimmed
+// sync/atomic operations of client.go and before every read/write of a client connection; the server
+// answers at once. Each caller must get its own
+// reply or an error (pool empty -> dial error), and at the end no pooled connection may hold bytes.
+func c28Fine(t *testing.T, name string, conns int, ops [][]string, c *vsched.Chooser) (out vsched.Outcome) {
+	vsync.ResetPools()
+	p := vsched.Bubble(t, func() {
+		srv := c28NewServer()
+		srv.auto = true
+		cl := NewClient("c28-no-dial", WithMaxIdleConns(conns))
+		links := make([]*c28Link, conns)
+		for i := range links {
+			links[i] = c28NewLink(i)
+			srv.serve(links[i])
+			cl.Put(c28PointConn{newBufferedConn(links[i].cli)})
+		}
+		s := vsched.New(c)
+		s.Scope = func(file, fn string) bool { return strings.HasSuffix(file, "internal/net/client.go") }
+		s.MaxSteps = 3000
+		var mu sync.Mutex
+		type res struct {
+			id, got string
+			err     error
+		}
+		var results []res
+		for j, ids := range ops {
+			ids := ids
+			s.Go(fmt.Sprintf("caller%d", j), func() {
+				for _, id := range ids {
+					resp, err := cl.SendProto(context.Background(), wrapperspb.String(id))
+					r := res{id: id, err: err}
+					if err == nil {
+						r.got = c28Show(resp)
+					}
+					mu.Lock()
+					results = append(results, r)
+					mu.Unlock()
+				}
+			})
+		}
+		s.Cleanup(func() {
+			for _, l := range links {
+				l.closeAll()
+			}
+		})
+		s.Start()
+		s.Run()
+		s.Stop()
+		vsched.Settle()
+		var v []vsched.Violation
+		for _, tp := range s.ThreadPanics {
+			v = append(v, vsched.Fail("panic-in-thread", "%s", tp))
+		}
+		if s.Deadlock || s.Livelock {
+			v = append(v, vsched.Fail("exchange-never-returned", "blocked: %v", s.Blocked))
+		}
+		if s.Wedged != "" {
+			out.Invalid = "wedged: " + s.Wedged
+		}
+		cl.mu.Lock()
+		idle := append([]idleConn(nil), cl.idle...)
+		cl.mu.Unlock()
+		seen := map[net.Conn]bool{}
+		for _, ic := range idle {
+			if seen[ic.conn] {
+				v = append(v, vsched.Fail("connection-pooled-twice", "the same connection sits in the idle pool twice"))
+			}
+			seen[ic.conn] = true
+			inner := ic.conn
+			if pc, ok := inner.(c28PointConn); ok {
+				inner = pc.Conn
+			}
+			if bc, ok := inner.(*bufferedConn); ok && bc.reader != nil && bc.reader.Buffered() > 0 {
+				v = append(v, vsched.Fail("pooled-connection-carries-bytes-of-an-earlier-exchange", "read-ahead of %d bytes on an idle connection", bc.reader.Buffered()))
+			}
+		}
+		for _, l := range links {
+			if l.s2c.pending() > 0 {
+				v = append(v, vsched.Fail("pooled-connection-carries-bytes-of-an-earlier-exchange", "conn%d: %d reply bytes in transit at the end", l.idx, l.s2c.pending()))
+			}
+		}
+		mu.Lock()
+		var b strings.Builder
+		for _, r := range results {
+			switch {
+			case r.err != nil:
+				fmt.Fprintf(&b, "%s=err;", r.id)
+			case r.got != "re:"+r.id:
+				v = append(v, vsched.Fail("caller-received-another-requests-response", "request %s got %s", r.id, r.got))
+			default:
+				fmt.Fprintf(&b, "%s=ok;", r.id)
+			}
+		}
+		mu.Unlock()
+		out.Violations = v
+		out.Obs = b.String() + fmt.Sprintf("idle=%d", len(idle))
+		for _, l := range links {
+			l.closeAll()
+		}
+		_ = cl.Close()
+		vsched.Settle()
+		srv.wg.Wait()
+		for _, l := range links {
+			l.wg.Wait()
+		}
+	})
+	if p != nil {
+		out.Violations = append(out.Violations, vsched.Fail("panic", "panic in execution: %v", p))
+	}
+	return out
+}
+
 func c28Show(m proto.Message) string {
 	if s, ok := m.(*wrapperspb.StringValue); ok {
 		return s.GetValue()
@@ -548,6 +682,22 @@ func TestVerifC28(t *testing.T) {
 		all = append(all, vsched.Scenario{
 			Cfg: vsched.Config{Scenario: sc.name, Bound: sc.bound, Params: map[string]any{"pooled_conns": sc.conns, "callers": len(sc.ops)}},
 			Run: func(c *vsched.Chooser) vsched.Outcome { return c28Run(t, sc, c) },
+		})
+	}
+	fine := []struct {
+		name  string
+		conns int
+		ops   [][]string
+		bound int
+	}{
+		{"fine/3callers-x1/1conn", 1, [][]string{{"a1"}, {"b1"}, {"c1"}}, vsched.Pick(2, 3)},
+		{"fine/2callers-x2/2conns", 2, [][]string{{"a1", "a2"}, {"b1", "b2"}}, vsched.Pick(2, 3)},
+	}
+	for _, f := range fine {
+		f := f
+		all = append(all, vsched.Scenario{
+			Cfg: vsched.Config{Scenario: f.name, Bound: f.bound, Params: map[string]any{"pooled_conns": f.conns, "callers": len(f.ops), "points": "shimmed sync/atomic operations of internal/net/client.go"}},
+			Run: func(c *vsched.Chooser) vsched.Outcome { return c28Fine(t, f.name, f.conns, f.ops, c) },
 		})
 	}
 	vsched.ExploreAll(all)
